@@ -313,3 +313,173 @@ Proof.
   intros Hwf. induction evs as [|e r IH]; intros s Hi; [exact Hi|].
   cbn [ns_run]. apply IH. apply ns_step_inv; assumption.
 Qed.
+
+(* ---------------------------------------------------------------- FIFO, exactly once *)
+(* messages accepted by coap_send() but not transmitted inside that call, in submission order *)
+Definition ns_held (t : list (ns_ev * list ns_out)) : list ns_msg :=
+  flat_map (fun eo => match fst eo with
+                      | NsSubmit m =>
+                        if ns_accepted (snd eo) && (match ns_txs (snd eo) with [] => true | _ => false end)
+                        then [m] else []
+                      | _ => []
+                      end) t.
+
+(* messages leaving the delay queue (first transmission, or discarded by a disconnect) *)
+Definition ns_reltx (o : list ns_out) : list ns_msg :=
+  flat_map (fun x => match x with NsTx m => [m] | NsDrop m => [m] | _ => [] end) o.
+
+Definition ns_released (t : list (ns_ev * list ns_out)) : list ns_msg :=
+  flat_map (fun eo => match fst eo with NsSubmit _ => [] | _ => ns_reltx (snd eo) end) t.
+
+Lemma ns_reltx_app a b : ns_reltx (a ++ b) = ns_reltx a ++ ns_reltx b.
+Proof. unfold ns_reltx. apply flat_map_app. Qed.
+
+Lemma ns_txs_app a b : ns_txs (a ++ b) = ns_txs a ++ ns_txs b.
+Proof. unfold ns_txs. apply flat_map_app. Qed.
+
+Lemma ns_reltx_maptx l : ns_reltx (map NsTx l) = l.
+Proof. induction l as [|h t IH]; [reflexivity|]. cbn. f_equal. exact IH. Qed.
+
+Lemma ns_txs_maptx l : ns_txs (map NsTx l) = l.
+Proof. induction l as [|h t IH]; [reflexivity|]. cbn. f_equal. exact IH. Qed.
+
+Lemma ns_connected_rel c s k : ns_wf c -> ns_pre c s k ->
+  ns_reltx (snd (ns_connected c s)) ++ map ns_nmsg (ns_dq (fst (ns_connected c s))) =
+  map ns_nmsg (ns_dq s).
+Proof.
+  intros Hwf (Ho & Ha & Hl & Hc & Hd). unfold ns_connected.
+  destruct (ns_drain c (ns_act s) (ns_dq s)) as [[[a r] snt] o] eqn:E. ns_simp.
+  assert (Hr : 0 <= ns_act s <= ns_nstart c) by lia.
+  destruct (ns_drain_spec c Hwf _ _ _ _ _ _ Hr Hd E) as (_ & _ & _ & _ & _ & A6 & A7 & _).
+  rewrite A7, ns_reltx_maptx. symmetry. exact A6.
+Qed.
+
+Lemma ns_dec_drain_rel c s k : ns_wf c -> ns_pre c s (S k) ->
+  ns_reltx (snd (ns_dec_drain c s)) ++ map ns_nmsg (ns_dq (fst (ns_dec_drain c s))) =
+  map ns_nmsg (ns_dq s).
+Proof.
+  intros Hwf (Ho & Ha & Hl & Hc & Hd). unfold ns_dec_drain.
+  destruct (ns_act s =? 0); [reflexivity|]. ns_simp.
+  destruct (ns_est s); [|reflexivity].
+  rewrite (ns_connected_rel c _ k Hwf); [reflexivity|].
+  unfold ns_pre. ns_simp. repeat split; try assumption; lia.
+Qed.
+
+Lemma ns_dec_n_rel c k : ns_wf c -> forall s, ns_post c s k ->
+  ns_reltx (snd (ns_dec_n c k s)) ++ map ns_nmsg (ns_dq (fst (ns_dec_n c k s))) =
+  map ns_nmsg (ns_dq s).
+Proof.
+  intros Hwf. induction k as [|k IH]; intros s H; [reflexivity|].
+  cbn [ns_dec_n]. destruct H as (Hp & He & _).
+  pose proof (ns_dec_drain_pre c s k Hwf Hp He) as H1.
+  pose proof (ns_dec_drain_rel c s k Hwf Hp) as H2.
+  destruct (ns_dec_drain c s) as [s1 o1]. ns_simp.
+  specialize (IH s1 H1). destruct (ns_dec_n c k s1) as [s2 o2]. ns_simp.
+  rewrite ns_reltx_app, <- app_assoc, IH. exact H2.
+Qed.
+
+Lemma ns_nacks_reltx r l : ns_reltx (ns_nacks r l) = [].
+Proof.
+  induction l as [|h t IH]; [reflexivity|]. unfold ns_nacks in *. cbn [flat_map].
+  rewrite ns_reltx_app, IH. destruct (ns_ncon h); reflexivity.
+Qed.
+
+Lemma ns_drops_reltx r l : ns_reltx (ns_drops r l) = map ns_nmsg l.
+Proof.
+  induction l as [|h t IH]; [reflexivity|]. unfold ns_drops in *. cbn [flat_map map].
+  rewrite ns_reltx_app, IH. destruct (ns_ncon h); reflexivity.
+Qed.
+
+(* one event: what left the delay queue, followed by what is still in it, is what was in it -
+   plus the message just submitted if it was held *)
+Lemma ns_step_rel c s e : ns_wf c -> ns_inv c s ->
+  match e with
+  | NsSubmit m =>
+    map ns_nmsg (ns_dq (fst (ns_step c s e))) =
+    map ns_nmsg (ns_dq s) ++ ns_held [(e, snd (ns_step c s e))]
+  | _ =>
+    ns_reltx (snd (ns_step c s e)) ++ map ns_nmsg (ns_dq (fst (ns_step c s e))) =
+    map ns_nmsg (ns_dq s)
+  end.
+Proof.
+  intros Hwf Hi. pose proof Hwf as [Hfx Hn]. unfold ns_step.
+  destruct (ns_open s) eqn:Ho; cbn [negb].
+  2: { destruct e; ns_simp; try reflexivity. cbn. rewrite app_nil_r. reflexivity. }
+  destruct e as [m|mid|mid|mid|tok| |r].
+  - unfold ns_submit, ns_held.
+    destruct (negb (ns_est s) || ns_con m && (ns_nstart c <=? ns_act s)).
+    + destruct (existsb _ (ns_dq s)); ns_simp; cbn; rewrite ?app_nil_r; try reflexivity.
+      rewrite map_app. reflexivity.
+    + destruct (ns_con m); ns_simp; cbn; rewrite app_nil_r; reflexivity.
+  - unfold ns_ack. destruct (ns_remove mid (ns_sq s)) as [[n q]|] eqn:Er; [|reflexivity].
+    destruct (ns_remove_some _ _ _ _ Er) as (L & _ & _ & HP & _).
+    assert (Hp : ns_pre c (ns_set_sq s q) 1).
+    { destruct Hi. unfold ns_pre. ns_simp. repeat split; try assumption; try lia.
+      apply (HP ns_ncon iv_con0). }
+    pose proof (ns_dec_drain_rel c _ 0 Hwf Hp) as H.
+    destruct (ns_dec_drain c (ns_set_sq s q)) as [s1 o]. ns_simp. exact H.
+  - unfold ns_rst. rewrite Hfx.
+    destruct (ns_remove mid (ns_sq s)) as [[n q]|] eqn:Er; [|reflexivity].
+    destruct (ns_remove_some _ _ _ _ Er) as (L & _ & _ & HP & _).
+    destruct (HP ns_ncon (iv_con _ _ Hi)) as [Hn' Hq]. rewrite Hn'.
+    assert (Hp : ns_pre c (ns_set_sq s q) 1).
+    { destruct Hi. unfold ns_pre. ns_simp. repeat split; try assumption; lia. }
+    pose proof (ns_dec_drain_rel c _ 0 Hwf Hp) as H.
+    destruct (ns_dec_drain c (ns_set_sq s q)) as [s1 o]. ns_simp.
+    rewrite ns_reltx_app. cbn [ns_reltx flat_map]. rewrite app_nil_r. exact H.
+  - unfold ns_tick. destruct (ns_remove mid (ns_sq s)) as [[n q]|] eqn:Er; [|reflexivity].
+    destruct (ns_remove_some _ _ _ _ Er) as (L & _ & Hin & HP & _).
+    destruct (HP ns_ncon (iv_con _ _ Hi)) as [Hn' Hq].
+    assert (He : ns_est s = true).
+    { apply (iv_est _ _ Hi). intro E. rewrite E in Hin. exact Hin. }
+    destruct (ns_cnt n <? ns_maxrt c).
+    + rewrite He, Hn'. cbn [negb orb andb]. destruct Hi.
+      destruct (ns_act s =? 0) eqn:E0; [lia|].
+      destruct (ns_nstart c <=? ns_act s - 1) eqn:El; [lia|]. reflexivity.
+    + assert (Hp : ns_pre c (ns_set_sq s q) 1).
+      { destruct Hi. unfold ns_pre. ns_simp. repeat split; try assumption; lia. }
+      pose proof (ns_dec_drain_rel c _ 0 Hwf Hp) as H.
+      destruct (ns_dec_drain c (ns_set_sq s q)) as [s1 o]. ns_simp. rewrite Hn'.
+      rewrite ns_reltx_app. cbn [ns_reltx flat_map]. rewrite app_nil_r. exact H.
+  - unfold ns_sep.
+    set (p := fun n : ns_node => ns_tok (ns_nmsg n) =? tok).
+    pose proof (ns_filter_split p (ns_sq s)) as Hlen.
+    pose proof (ns_forallb_filter ns_ncon p (ns_sq s) (iv_con _ _ Hi)) as Hch.
+    rewrite (ns_filter_all ns_ncon _ Hch).
+    destruct (filter p (ns_sq s)) as [|h0 t0] eqn:Eh; unfold p in *; cbn beta in *; [reflexivity|].
+    assert (He : ns_est s = true).
+    { apply (iv_est _ _ Hi). intro E. rewrite E in Eh. discriminate. }
+    match goal with |- context [ns_dec_n c ?k ?st] =>
+      assert (Hpost : ns_post c st k) end.
+    { destruct Hi. unfold ns_post, ns_pre. ns_simp.
+      repeat split; try assumption; try lia.
+      + apply ns_forallb_filter. exact iv_con0.
+      + apply iv_qui0. exact He. }
+    pose proof (ns_dec_n_rel c _ Hwf _ Hpost) as H. ns_simp. exact H.
+  - apply (ns_connected_rel c s 0 Hwf). apply ns_inv_pre; assumption.
+  - unfold ns_fail. destruct (r =? ns_ICMP); ns_simp.
+    + destruct (ns_sq s); [destruct (ns_lg s)|]; reflexivity.
+    + rewrite !ns_reltx_app, ns_drops_reltx, ns_nacks_reltx.
+      destruct (ns_sq s); cbn [ns_reltx flat_map app map]; rewrite ?app_nil_r;
+      destruct (filter ns_ncon (ns_dq s)); destruct (ns_lg s); cbn; rewrite ?app_nil_r; reflexivity.
+Qed.
+
+Lemma ns_trace_cons c s e r :
+  ns_trace c s (e :: r) = (e, snd (ns_step c s e)) :: ns_trace c (fst (ns_step c s e)) r.
+Proof. cbn [ns_trace]. destruct (ns_step c s e). reflexivity. Qed.
+
+Theorem ns_fifo_once c : ns_wf c -> forall evs s, ns_inv c s ->
+  ns_released (ns_trace c s evs) ++ map ns_nmsg (ns_dq (ns_run c s evs)) =
+  map ns_nmsg (ns_dq s) ++ ns_held (ns_trace c s evs).
+Proof.
+  intros Hwf. induction evs as [|e r IH]; intros s Hi.
+  - cbn. rewrite app_nil_r. reflexivity.
+  - rewrite ns_trace_cons. cbn [ns_run]. unfold ns_released, ns_held in *. cbn [flat_map fst snd].
+    pose proof (ns_step_rel c s e Hwf Hi) as H.
+    pose proof (ns_step_inv c s e Hwf Hi) as Hi'.
+    specialize (IH _ Hi').
+    destruct e; rewrite <- ?app_assoc, IH;
+      try (rewrite app_assoc, H; reflexivity).
+    cbn [app]. rewrite H. unfold ns_held. cbn [flat_map fst snd]. rewrite app_nil_r, <- app_assoc.
+    reflexivity.
+Qed.
